@@ -3,12 +3,13 @@
    what it observed on the object.
    codes: 1  model (W,H) <> implementation's obj.Width/Height
           2  oracle hypothesis: label / class / table content dimensions are >= 0
-          3  oracle hypothesis (oval): cos/sin of the content angle in [0,1]
+          3  oracle hypothesis (oval): content + padding*cos / padding*sin (content angle) is >= -1/2
          10  explicit width and height not honoured exactly
          11  square / circle with explicit sizes is not max x max
          12  table / class / code / text-with-language smaller than its content or than the explicit size
          13  automatic size: the label does not fit into the shape's inner box (obj.ToShape().GetInnerBox())
-         14  image with explicit size is not max(5, size)                                            *)
+         14  image with explicit size is not max(5, size)
+         15  the size of the (leaf) shape after the real layout differs from the size SetDimensions chose                                            *)
 From Coq Require Import ZArith QArith Qround Qabs List Bool.
 Import ListNotations.
 Require Import V.Lib.RunCases V.C27.Check.
@@ -19,7 +20,8 @@ Inductive case :=
 | Case (kd : kind) (label_empty lang : bool) (lw lh font tw th : Z) (dw dh : option Z) (icon linktip : bool)
        (oc oce os ose : Z)            (* oval: cos / sin of the content angle, dyadic *)
        (W We H He : Z)                (* obj.Width, obj.Height after SetDimensions *)
-       (iw iwe ih ihe : Z).           (* inner box size of obj.ToShape() *)
+       (iw iwe ih ihe : Z)            (* inner box size of obj.ToShape() *)
+       (LW LWe LH LHe : Z).           (* obj.Width, obj.Height after the real nested (dagre) layout, or = W, H *)
 
 Definition close2 (m : Q * Q) (W H : Q) : bool := close (fst m) W && close (snd m) H.
 Definition zset (o : option Z) : bool := match o with Some z => negb (z =? 0)%Z | None => false end.
@@ -27,7 +29,7 @@ Definition absent (o : option Z) : bool := match o with None => true | Some _ =>
 
 Definition check_case (c : case) : list N :=
   match c with
-  | Case kd le lg lw lh font tw th dw dh ic lt oc oce os ose W We H He iw iwe ih ihe =>
+  | Case kd le lg lw lh font tw th dw dh ic lt oc oce os ose W We H He iw iwe ih ihe LW LWe LH LHe =>
       let i := {| k := kd; label_empty := le; lang := lg; lw := lw; lh := lh; font := font; tw := tw; th := th;
                   dw := dw; dh := dh; icon := ic; linktip := lt; oc := qf (oc, oce); os := qf (os, ose) |} in
       let W := qf (W, We) in let H := qf (H, He) in
@@ -43,7 +45,7 @@ Definition check_case (c : case) : list N :=
                close2 (size_to_content i (Qred (inject_Z (fst cnt) * a)) (Qred (inject_Z (snd cnt) * b))
                                          (Qred (fst pad * a)) (Qred (snd pad * b))) W H) variants in
       let hyp := (0 <=? lw)%Z && (0 <=? lh)%Z && (0 <=? tw)%Z && (0 <=? th)%Z in
-      let hyp_oval := match kd with KOval => H_unit_b (V.C21.Model.oc i) (V.C21.Model.os i) | _ => true end in
+      let hyp_oval := match kd with KOval => H_pad_b (V.C21.Model.oc i) (V.C21.Model.os i) (inject_Z (fst cnt)) (inject_Z (snd cnt)) (fst pad) (snd pad) | _ => true end in
       let both := zset dw && zset dh in
       let a := inject_Z (zval dw) in let b := inject_Z (zval dh) in
       let is_image := match kd with KImage => true | _ => false end in
@@ -60,4 +62,5 @@ Definition check_case (c : case) : list N :=
                  then Qeq_bool W (inject_Z (Z.max minShapeSize (zval dw))) && Qeq_bool H (inject_Z (Z.max minShapeSize (zval dh)))
                  else true in
       flag corr 1 ++ flag hyp 2 ++ flag hyp_oval 3 ++ flag c10 10 ++ flag c11 11 ++ flag c12 12 ++ flag c13 13 ++ flag c14 14
+      ++ flag (Qeq_bool (qf (LW, LWe)) W && Qeq_bool (qf (LH, LHe)) H) 15
   end.
